@@ -653,11 +653,14 @@ def active_transitions(t, s, out):
 
 
 def _prod(alts_list):
+    """all concatenations of one alternative per part. The bound only guards against a blow-up (several lists of
+    rows with three pending-state alternatives each); 64 was too small: four rows with three alternatives each are
+    81 combinations and the truncation cut the legitimate "nothing shown yet in any row" off"""
     out = [[]]
     for alts in alts_list:
         out = [a + b for a in out for b in alts]
-        if len(out) > 64:
-            out = out[:64]
+        if len(out) > 50000:
+            out = out[:50000]
     return out
 
 
